@@ -26,7 +26,10 @@ newer valid copy; the version table is 1 -> V1, 2|3|_ -> V2 and the write buffer
 version. Not decided: that an independent decoder finds exactly the live keys after an arbitrary workload; golden files.
 """
 DECIDED = ['boundary comparisons of what counts as a recoverable record (key / value limits, header fit) pinned with their strictness', "pinned constants", "record field offsets: writer = reader = spec", "token fold and CRC feed: writer = recovery",
-           "retirement marker positions", "metadata / journal byte ranges and checksum coverage", "version table and version plumbing"]
+           "retirement marker positions", "metadata / journal byte ranges and checksum coverage", "version table and version plumbing",
+           'allocation-journal slot validity predicate set (shared with C03)',
+           'every retirement-marker writer uses the one encoder',
+           'v1 key allowance gated by the version']
 NOT_DECIDED = ["independent-reader equivalence after arbitrary workloads", "golden-file corpus"]
 ASSUMPTIONS = ["spec/layout.json is the released format (transcribed from this commit's constants and docs)"]
 TECHNIQUE = "static analysis: compiler const-evaluation + symbolic offset extraction from MIR, sibling comparison against a pinned layout table"
